@@ -374,7 +374,18 @@ def run_history(r, ctx, scenario_mode):
     compare(model, obs, "build", detail)
     nt = False
     ctx.label("lanelets-%d" % len(net_r["lanelets"]))
+    siblings = []     # networks a cut-out was taken from / produced earlier: later removals must not reach them
+
+    def check_siblings():
+        for stag, snet, sobs in siblings:
+            now = observe(snet)
+            if now != sobs:
+                diff = [(k2, i) for k2 in ("L", "S", "T", "I") for i in sobs[k2] if sobs[k2].get(i) != now[k2].get(i)]
+                raise Violation("%s/other-network-changed-later" % stag, "a network that was not operated on changed: "
+                                "entries %r: before %r now %r; %s" % (diff[:4], [sobs[a][b] for a, b in diff[:2]],
+                                                                      [now[a].get(b) for a, b in diff[:2]], detail()))
     for k, op in enumerate(r["ops"]):
+        check_siblings()
         step[0], step[1] = k, op
         name = op["op"]
         tag = name
@@ -553,14 +564,20 @@ def run_history(r, ctx, scenario_mode):
             check_no_dangling(nobs, tag, detail)
             compare(nm, nobs, tag, detail, required)
             if op.get("adopt") and not scenario_mode:
+                siblings.append((tag, net, after))
                 net, model, obs = new, nm, nobs
                 ctx.label("adopted-result")
+            else:
+                siblings.append((tag, new, nobs))
             continue
         else:
             raise ValueError(name)
         obs = observe(net)
         check_no_dangling(obs, tag, detail)
         compare(model, obs, tag, detail)
+    check_siblings()
+    if siblings:
+        ctx.label("two-networks-alive")
     if nt:
         ctx.nontrivial()
     if known[0] is not None:
